@@ -1636,3 +1636,194 @@ Theorem C01_known_file_bare :
   end.
 Proof. exact known_file_bare. Qed.
 Print Assumptions C01_known_file_bare.
+
+(* ====================================================================================== *)
+(* The file states (task c01file2): "file:..." with no base or against a base with another scheme *)
+(* ====================================================================================== *)
+From RU Require Import Proofs.C02_PathL1 Proofs.C01_EqFileSpec Proofs.C01_EqFilePath Proofs.C01_EqFileRel Proofs.C01_EqFile
+  Proofs.C01_EqFileHost Proofs.C01_EqFileAsm.
+
+(* the Standard's side alone, scheme "file", no base or a base whose scheme is not "file" (the base is never
+   consulted): on the text R after "file:" the file, file slash, file host, path start and path states compute
+   `sfile` - no or one leading '/' '\': the path state on what follows with the empty host; two: the file host
+   state up to the first '/', '\', '?', '#' (a Windows drive letter there is no host: the buffer is kept and
+   the path state goes on with it; the empty buffer gives the empty host; otherwise the host parser, and
+   "localhost" becomes the empty host), then the path start state.  The path state is read with BOTH
+   drive-letter quirks (spath_f / fin_f: ".." does not pop a sole normalized drive letter, a drive letter that
+   becomes the first segment is normalized to "X:"); '/' and '\' separate, special-query set.  Full: every
+   input with that scheme, failing ones included. *)
+Theorem C01_file_states : forall shp base input R,
+  spec_scheme (spec_clean input) = Some (str_file, R) -> no_file_base base = true ->
+  match sfile shp u_file0 R with
+  | Some su => spec_basic_url_parse shp input base = BDone su
+  | None => exists uf, spec_basic_url_parse shp input base = BFailure uf
+  end.
+Proof. exact spec_file_any. Qed.
+Check C01_file_states : forall shp base input R,
+  spec_scheme (spec_clean input) = Some (str_file, R) ->
+  match base with Some b => negb (list_eqb (su_scheme b) str_file) | None => true end = true ->
+  match sfile shp u_file0 R with
+  | Some su => spec_basic_url_parse shp input base = BDone su
+  | None => exists uf, spec_basic_url_parse shp input base = BFailure uf
+  end.
+Print Assumptions C01_file_states.
+
+(* the model's side alone: the path loop of parser.rs for SchemeType::File, started behind "pre /" on its
+   abstract state (closed segments `segs`, flushed buffer `cur`, pending characters `pend`), computes the
+   Standard's file path state `spath_f` ON THAT STATE, then collapses the leading slashes of the path
+   (file_path_fixup), and hands back has_host unchanged - for every scalar-value text inside `fpath_ok`:
+   no ".." meets a drive-letter-shaped last segment (F-C01-5/9), no drive letter becomes the first segment
+   of a URL with a host (F-C01-1), the first segment does not go on after a drive-letter prefix (F-C01-7;
+   decided on the cleaned text, so the theorem holds wherever the tabs and newlines of the raw text are) *)
+Theorem C01_file_path_loop : forall pre dbg l segs cur pend hh, usv_list l -> pend_ok pend ->
+  forallb no_slash segs = true -> no_slash cur = true ->
+  fpath_ok hh (ntnl l) segs (cur ++ encode T_PATH (utf8_encode (rev pend))) = true ->
+  exists segs' last',
+    parse_path_loop dbg CUrlParser STFile (nlen pre) l (Bs pre segs ++ cur) (nlen (Bs pre segs)) pend hh
+    = POk (file_path_fixup STFile (nlen pre) (Bs pre segs' ++ last'), hh, cbb_rest l)
+    /\ fst (spath_f (ntnl l) segs (cur ++ encode T_PATH (utf8_encode (rev pend)))) = segs' ++ [last']
+    /\ snd (spath_f (ntnl l) segs (cur ++ encode T_PATH (utf8_encode (rev pend)))) = ntnl (cbb_rest l).
+Proof. exact loop_exact_f. Qed.
+Print Assumptions C01_file_path_loop.
+
+(* the class: every scalar-value input "file:" R - tab / LF / CR anywhere - with no base or against a
+   `related`-scheme base that is not a file URL, inside the computable recogniser in_class_file =
+   file_class_ok R:  (i) no Windows drive letter in host position ("file://C:/..");  (ii) the model's path
+   loop stays inside fpath_ok (see C01_file_path_loop; has_host = "the text between // and the path is not
+   empty", and, since the model cannot know before the host parser ran whether that host is localhost, for a
+   non-empty host text both readings must be inside);  (iii) the model's segment list with its leading empty
+   segments dropped (parser.rs:1377) IS the Standard's list - `fp_ok` compares the two lists computed by the
+   Standard's own path function `spath_f` (the model enters the path loop one '/' earlier than the Standard
+   when the host is empty).  Each exclusion contains genuine divergences (C01_eq_file_nonvacuous); (i), the
+   F-C01-7 clause and ".." behind a sole "X:" are broader than necessary.
+   The host parsers of the two sides are arbitrary functions that agree on the ONE string they are applied to
+   (host_agree_file: host_agree_sp, both sides decide "the host is the domain localhost" alike, the
+   Standard's serializer gives "" for the empty host).  Outcome: agree_good (the Standard succeeds -> its
+   record meets spec_base_ok, and the model answers Overflow with the Standard's href beyond u32::MAX bytes
+   or succeeds with a `related` record: same ten API strings; the Standard fails -> the model returns Err),
+   and a successful pair is a full_base pair (usable as a base of "", "#f", "?q"). *)
+Theorem C01_eq_file : forall dbg hp hpo hd shp shs base sbase input,
+  usv_list input -> in_class_file input = true ->
+  base_sch_rel base sbase -> no_file_base sbase = true ->
+  host_agree_file hp hd shp shs (class_host_text_f input) ->
+  agree_good dbg shs (parse_url dbg hp hpo hd None base input) (spec_basic_url_parse shp input sbase)
+  /\ (forall su u, spec_basic_url_parse shp input sbase = BDone su -> parse_url dbg hp hpo hd None base input = POk u ->
+        full_base dbg shs u su).
+Proof. exact class_file_good. Qed.
+Check C01_eq_file : forall dbg hp hpo hd shp shs base sbase input,
+  usv_list input -> in_class_file input = true ->
+  match base, sbase with None, None => True | Some b, Some sb => b_scheme b = su_scheme sb | _, _ => False end ->
+  match sbase with Some b => negb (list_eqb (su_scheme b) str_file) | None => true end = true ->
+  (shs SEmpty = []
+   /\ host_agree_sp hp hd shp shs (class_host_text_f input)
+   /\ match hp (class_host_text_f input), host_parsing shp false (class_host_text_f input) with
+      | Ok h, Some sh => is_localhost_m h = is_localhost_s sh
+      | _, _ => True
+      end) ->
+  let m := parse_url dbg hp hpo hd None base input in
+  match spec_basic_url_parse shp input sbase with
+  | BDone su => spec_base_ok su = true
+                /\ ((m = PErr Overflow /\ U32_MAX_P < nlen (get_href shs su))
+                    \/ exists u, m = POk u /\ related dbg shs u su)
+  | BFailure _ => exists e, m = PErr e
+  | BOutOfFuel => False
+  end
+  /\ (forall su u, spec_basic_url_parse shp input sbase = BDone su -> m = POk u ->
+        (related dbg shs u su /\ spec_base_ok su = true) /\ base_shape_ok su = true).
+Print Assumptions C01_eq_file.
+
+(* condition (iii) of the class made explicit for the arms in which the model and the Standard enter the path
+   loop at the same place (no or one leading separator; a host that is not empty and not localhost): the
+   comparison of the two lists says exactly that the Standard's segment list does not start with an empty
+   segment followed by more (the leading-slash collapse of parser.rs:1377, findings F-C01-2/3) *)
+Theorem C01_file_class_same_entry : forall hh t,
+  fp_ok hh t t = fpath_ok hh t [] [] && strip_stable (fst (spath_f t [] [])).
+Proof. exact fp_ok_same. Qed.
+Check C01_file_class_same_entry : forall hh t,
+  fp_ok hh t t = fpath_ok hh t [] [] && match fst (spath_f t [] []) with [] :: _ :: _ => false | [] => false | _ => true end.
+Print Assumptions C01_file_class_same_entry.
+
+(* the same with a UTF-8 encoding override *)
+Theorem C01_eq_file_utf8 : forall dbg hp hpo hd shp shs base sbase input,
+  usv_list input -> in_class_file input = true ->
+  base_sch_rel base sbase -> no_file_base sbase = true ->
+  host_agree_file hp hd shp shs (class_host_text_f input) ->
+  agree_good dbg shs (parse_url dbg hp hpo hd (Some utf8_encode) base input) (spec_basic_url_parse shp input sbase).
+Proof. exact class_file_good_utf8. Qed.
+Print Assumptions C01_eq_file_utf8.
+
+(* the host hypothesis of the class holds for Host::parse + Display of Model/Host.v against the Standard's
+   host parser and serializer over the same oracle whose outputs avoid the deny list, on every scalar-value
+   string *)
+Theorem C01_host_agree_file : forall idna,
+  (forall bs d, idna bs = Some d -> Forall dom_char_ok d) ->
+  forall s, usv_list s ->
+  host_agree_file (host_parse idna) host_display (spec_host_parser idna) spec_host_serializer s.
+Proof. exact host_agree_file_real. Qed.
+Print Assumptions C01_host_agree_file.
+
+(* C01_statement on the file class for the parser model with the host model plugged in against the Standard's
+   parser with the Standard's host parser: relative to IdnaOK idna ONLY.  These inputs are all in class 1 of
+   Known_C01 (which is still "the file scheme is involved"): the theorem decides a sub-class of class 1 by
+   proof; what is left of class 1 to the differential run: file bases (other than bare references), and the
+   exclusions of in_class_file. *)
+Theorem C01_statement_file_model : forall dbg idna, IdnaOK idna -> forall input base sbase,
+  usv_list input -> full_rel dbg spec_host_serializer base sbase -> no_file_base sbase = true ->
+  in_class_file input = true ->
+  agree_good dbg spec_host_serializer
+    (parse_url dbg (host_parse idna) host_parse_opaque host_display None base input)
+    (spec_basic_url_parse (spec_host_parser idna) input sbase)
+  /\ (forall su u, spec_basic_url_parse (spec_host_parser idna) input sbase = BDone su ->
+        parse_url dbg (host_parse idna) host_parse_opaque host_display None base input = POk u ->
+        full_base dbg spec_host_serializer u su).
+Proof. exact class_file_model. Qed.
+Print Assumptions C01_statement_file_model.
+
+Theorem C01_statement_file_instance : forall dbg idna, IdnaOK idna -> forall input base sbase,
+  usv_list input -> full_rel dbg spec_host_serializer base sbase -> no_file_base sbase = true ->
+  in_class_file input = true ->
+  statement_shape dbg spec_host_serializer
+    (parse_url dbg (host_parse idna) host_parse_opaque host_display None base input)
+    (spec_basic_url_parse (spec_host_parser idna) input sbase).
+Proof. exact class_file_instance. Qed.
+Check C01_statement_file_instance : forall dbg idna, IdnaOK idna -> forall input base sbase,
+  usv_list input -> full_rel dbg spec_host_serializer base sbase ->
+  match sbase with Some b => negb (list_eqb (su_scheme b) str_file) | None => true end = true ->
+  in_class_file input = true ->
+  match parse_url dbg (host_parse idna) host_parse_opaque host_display None base input,
+        spec_basic_url_parse (spec_host_parser idna) input sbase with
+  | POk u, BDone su => api_total dbg u = spec_api_list spec_host_serializer su
+  | PErr Overflow, BDone su => U32_MAX_P < nlen (get_href spec_host_serializer su)
+  | PErr _, BFailure _ => True
+  | _, _ => False
+  end.
+Print Assumptions C01_statement_file_instance.
+
+(* non-vacuity.  In the class (all in class 1 of Known_C01), with the href both sides give:
+   file:///C:/a/../b -> file:///C:/b ;  file://localhost/x -> file:///x ;  file://h.x/a/./b?q#f ;
+   fIle:<TAB>\c|/x -> file:///c:/x (one backslash: the drive letter is the first segment, no host) ;  file: -> file:/// .
+   Outside the class and diverging (model vs Standard):
+   file:////foo (file:///foo vs file:////foo, F-C01-3) ;  file://h.x/C:/ (file:///C:/ vs file://h.x/C:/, F-C01-1) ;
+   file:///C|/x (file:///C|/x vs file:///C:/x, F-C01-11) ;  file:/a/C:/../x (file:///a/C:/x vs file:///a/x, F-C01-5). *)
+Example C01_eq_file_nonvacuous :
+  let idna := ex_idna_clean in
+  let P i := parse_url true (host_parse idna) host_parse_opaque host_display None None i in
+  let S i := spec_basic_url_parse (spec_host_parser idna) i None in
+  let ok i href := in_class_file i = true /\ known_c01 None i = 1
+                   /\ match P i, S i with
+                      | POk u, BDone su => q_href u = href /\ api_of_model true u = Some (spec_api_list spec_host_serializer su)
+                      | _, _ => False end in
+  let bad i hm hs := in_class_file i = false
+                   /\ match P i, S i with
+                      | POk u, BDone su => q_href u = hm /\ get_href spec_host_serializer su = hs /\ hm <> hs
+                      | _, _ => False end in
+  ok [102;105;108;101;58;47;47;47;67;58;47;97;47;46;46;47;98] [102;105;108;101;58;47;47;47;67;58;47;98]
+  /\ ok [102;105;108;101;58;47;47;108;111;99;97;108;104;111;115;116;47;120] [102;105;108;101;58;47;47;47;120]
+  /\ ok [102;105;108;101;58;47;47;104;46;120;47;97;47;46;47;98;63;113;35;102] [102;105;108;101;58;47;47;104;46;120;47;97;47;98;63;113;35;102]
+  /\ ok [102;73;108;101;58;9;92;99;124;47;120] [102;105;108;101;58;47;47;47;99;58;47;120]
+  /\ ok [102;105;108;101;58] [102;105;108;101;58;47;47;47]
+  /\ bad [102;105;108;101;58;47;47;47;47;102;111;111] [102;105;108;101;58;47;47;47;102;111;111] [102;105;108;101;58;47;47;47;47;102;111;111]
+  /\ bad [102;105;108;101;58;47;47;104;46;120;47;67;58;47] [102;105;108;101;58;47;47;47;67;58;47] [102;105;108;101;58;47;47;104;46;120;47;67;58;47]
+  /\ bad [102;105;108;101;58;47;47;47;67;124;47;120] [102;105;108;101;58;47;47;47;67;124;47;120] [102;105;108;101;58;47;47;47;67;58;47;120]
+  /\ bad [102;105;108;101;58;47;97;47;67;58;47;46;46;47;120] [102;105;108;101;58;47;47;47;97;47;67;58;47;120] [102;105;108;101;58;47;47;47;97;47;120].
+Proof. vm_compute. repeat split; try reflexivity; discriminate. Qed.
